@@ -287,41 +287,7 @@ func checkC09(c *Ctx) {
 
 	// ---- C09.14 a tracked registration leaves the table through the expiry sweep only: any other removal races with
 	// the delivery that validates (and announces) the same entry - unless it is made under a not-valid test
-	r.Rule("C09.14", "table entries are deleted by the sweep's removeRegistration only (or under a not-valid test)", 3)
-	{
-		n := 0
-		for _, f := range c.funcsOfPkgs("pkg/station/lib") {
-			eachInstr(f, func(in ssa.Instruction) {
-				call, ok := in.(*ssa.Call)
-				if !ok {
-					return
-				}
-				b, isB := call.Call.Value.(*ssa.Builtin)
-				if !isB || b.Name() != "delete" {
-					return
-				}
-				mp := pathOf(call.Call.Args[0])
-				if !strings.HasSuffix(mp, ".decoysTimeouts") && !strings.Contains(mp, ".decoys[") && !strings.HasSuffix(mp, ".decoys") {
-					return
-				}
-				if o, _, ok := fieldOwnerDeep(call.Call.Args[0]); ok && o != "lib.RegisteredDecoys" {
-					return
-				}
-				n++
-				okk := f.Name() == "removeRegistration" || onlyCalledFrom(f, "removeRegistration", 2) || onlyCalledFrom(f, "removeOldRegistrations", 2)
-				how := "in the sweep"
-				if !okk {
-					okk = guardedM(f, in, func(cnd string, pol bool) bool { return strings.HasSuffix(cnd, ".Valid") && !pol })
-					how = "under a not-valid test"
-				}
-				r.Check(okk, "C09.14", fnName(f)+": delete from "+firstN(mp, 40)+" belongs to the expiry sweep", in.Pos(), fnName(f), how,
-					"an entry is deleted from the registration table outside the expiry sweep and without testing that it is not valid: a duplicate delivery that has meanwhile validated and announced the same entry loses it - an interleaving with no serial equivalent (announced, counted active, but not tracked)")
-			})
-		}
-		if n == 0 {
-			r.Unk("C09.14", "deletes from the registration table", token.NoPos, "", "none found")
-		}
-	}
+	checkTableDeletes(c, "C09.14")
 
 	// ---- C09.10 a single remover: removeRegistration uses the record it looks up without a found-test, which is only
 	// safe while nothing else can delete records between the sweeper's collection and removal phases
@@ -1023,4 +989,45 @@ func fieldOwnerDeep(v ssa.Value) (string, string, bool) {
 		}
 	}
 	return "", "", false
+}
+
+// checkTableDeletes (C09.14, C08.10): a tracked registration leaves the tables through the expiry sweep only.
+func checkTableDeletes(c *Ctx, rule string) {
+	r := c.R
+	r.Rule(rule, "table entries are deleted by the sweep's removeRegistration only (or under a not-valid test)", 3)
+	{
+		n := 0
+		for _, f := range c.funcsOfPkgs("pkg/station/lib") {
+			eachInstr(f, func(in ssa.Instruction) {
+				call, ok := in.(*ssa.Call)
+				if !ok {
+					return
+				}
+				b, isB := call.Call.Value.(*ssa.Builtin)
+				if !isB || b.Name() != "delete" {
+					return
+				}
+				mp := pathOf(call.Call.Args[0])
+				if !strings.HasSuffix(mp, ".decoysTimeouts") && !strings.Contains(mp, ".decoys[") && !strings.HasSuffix(mp, ".decoys") {
+					return
+				}
+				if o, _, ok := fieldOwnerDeep(call.Call.Args[0]); ok && o != "lib.RegisteredDecoys" {
+					return
+				}
+				n++
+				okk := f.Name() == "removeRegistration" || onlyCalledFrom(f, "removeRegistration", 2) || onlyCalledFrom(f, "removeOldRegistrations", 2)
+				how := "in the sweep"
+				if !okk {
+					okk = guardedM(f, in, func(cnd string, pol bool) bool { return strings.HasSuffix(cnd, ".Valid") && !pol })
+					how = "under a not-valid test"
+				}
+				r.Check(okk, rule, fnName(f)+": delete from "+firstN(mp, 40)+" belongs to the expiry sweep", in.Pos(), fnName(f), how,
+					"an entry is deleted from the registration table outside the expiry sweep and without testing that it is not valid: a duplicate delivery that has meanwhile validated and announced the same entry loses it - an interleaving with no serial equivalent (announced, counted active, but not tracked)")
+			})
+		}
+		if n == 0 {
+			r.Unk(rule, "deletes from the registration table", token.NoPos, "", "none found")
+		}
+	}
+
 }
